@@ -118,7 +118,7 @@ def make_inputs(ck, n):
 
 
 def e2e(ck, paths, tier):
-    ninputs = 6 if tier == "quick" else 40
+    ninputs = 10 if tier == "quick" else 40
     inputs = make_inputs(ck, ninputs)
     argsets = [(), ("gpo",), ("gpe",), ("tgpe",), ("gpo", "gpe"), ("gpo", "tgpe"), ("gpe", "tgpe"), ("gpo", "gpe", "tgpe")]
     jobs = []
